@@ -81,22 +81,40 @@ def scenario(params, ch):
                     w.fates = []
                 w.run(1)
             msgs = ()
-        for i, (size, retry) in enumerate(msgs):
-            tag = "m%d" % i
-            data = payload(i + 1, SIZES[size])
-            mon.sends[tag] = (sender, data, retry, w.vt.now, "fragmented" if SIZES[size] > 1434 else "single")
-            e = app_send(w, mon, sender, data, retry, tag=tag)
-            if e is not None:
-                ch.flag("send-raises", "send raised %s" % type(e).__name__, repr(e))
+        # messages may carry a third element: the tick (relative to the first send) at which they are queued -
+        # e.g. exactly when the 0.1 s resend of an earlier retry-mode message is due
+        later = {}
+        for i, m in enumerate(msgs):
+            size, retry = m[0], m[1]
+            at = m[2] if len(m) > 2 else 0
+
+            def do_send(i=i, size=size, retry=retry):
+                tag = "m%d" % i
+                data = payload(i + 1, SIZES[size])
+                mon.sends[tag] = (sender, data, retry, w.vt.now, "fragmented" if SIZES[size] > 1434 else "single")
+                e = app_send(w, mon, sender, data, retry, tag=tag)
+                if e is not None:
+                    ch.flag("send-raises", "send raised %s" % type(e).__name__, repr(e))
+            if at == 0:
+                do_send()
+            else:
+                later.setdefault(at, []).append(do_send)
+        tick0 = w.tickno
+
+        def run_window(n):
+            for _ in range(n):
+                for f in later.pop(w.tickno - tick0, []):
+                    f()
+                w.tick()
         if blackout:
             bdir, start, ticks = blackout
-            w.run(start)
+            run_window(start)
             w.start_blackout(bdir, ticks)
-        w.run(4)
+        run_window(4)
         if longframe:
             # the owner stalls: timeout and ack compete in one update
             w.tick(dt=longframe)
-        w.run(4)
+        run_window(4 + (max(later) if later else 0))
         w.fates = []
         # settle: all retries, timeouts (1 s) and late deliveries (70 ticks) done
         k = (1.0 / 64) / w.dt
@@ -150,6 +168,18 @@ def params_list(tier):
         cfgs = [("cs", 1), ("sc", 0), ("sc", 1), ("cs", 0)]
         blackouts = [None, ("ack", 0, 13), ("data", 0, 70), ("ack", 2, 100), ("both", 1, 30)]
         longframes = [0, 0.25, 1.2]
+    for direction in ("c2s", "s2c"):
+        # round trips longer than the resend interval (one-way 8 ticks = 0.125 s, 20 ticks = 0.31 s), no other fault needed
+        for msgs in ((("small", "retry"),), (("small", "best"),), (("small", "none"),), (("frag2", "retry"),),
+                     (("small", "retry"), ("small", "none", 7)), (("small", "best"), ("small", "retry", 6), ("small", "none", 8)),
+                     (("frag2", "best"), ("small", "none", 7))):
+            for lat in ((8,) if tier == "quick" else (8, 20, 40)):
+                out.append((direction, msgs, None, 0, "cs", lat))
+        # a second message queued exactly when the resend of the first is due, acks late
+        for at in ((7,) if tier == "quick" else (6, 7, 8, 13)):
+            ack_dir0 = "s2c" if direction == "c2s" else "c2s"
+            out.append((direction, (("small", "retry"), ("small", "none", at)), (ack_dir0, 0, 13), 0, "cs", 1))
+            out.append((direction, (("small", "best"), ("small", "retry", at)), (ack_dir0, 0, 13), 0, "cs", 1))
     for direction in ("c2s", "s2c"):
         data_dir, ack_dir = (("c2s", "s2c") if direction == "c2s" else ("s2c", "c2s"))
         # frame 1/50 s > send_interval: one datagram per tick, 45 outstanding within 0.9 s < timeout
